@@ -139,11 +139,8 @@ func (l *linkedNode) flatten() map[NodeID]struct{} {
 		node := stack[len(stack)-1]
 		stack = stack[:len(stack)-1]
 
-		// Skip already flattened nodes
-		if _, ok := flattened[node.nodeID]; ok {
-			continue
-		}
-
+		// A node ID may appear more than once, it is only recorded once but
+		// the nodes linked after it still need to be visited.
 		flattened[node.nodeID] = struct{}{}
 
 		for _, child := range node.next {
